@@ -21,7 +21,7 @@ package container
 //@         ((q.first == -1 && q.next == 0) ||
 //@          (0 <= q.first && q.first < cap(q.base) && 0 <= q.next && q.next < cap(q.base)))) &&
 //@     0 <= q.ndeq && q.size() == len(q.hist) - q.ndeq &&
-//@     (forall k int :: {q.at(k)} 0 <= k && k < q.size() ==> q.at(k) == q.hist[q.ndeq + k]) }
+//@     (forall j int :: {q.hist[j]} q.ndeq <= j && j < len(q.hist) ==> q.hist[j] == q.at(j - q.ndeq)) }
 //
 //@ func (q *Queue[T]) Enqueue(i T)
 //@   arith    checked
@@ -29,6 +29,7 @@ package container
 //@   modifies q.base, q.first, q.next, q.hist, elems(q.base)
 //@   ensures  "wf":   q.wf()
 //@   ensures  "fifo": q.hist == snoc(old(q.hist), i) && q.ndeq == old(q.ndeq)
+//@   ensures  "buffer-same-or-fresh": arrayOf(q.base) == old(arrayOf(q.base)) || fresh(q.base)
 //@   ghost exit { q.hist = snoc(old(q.hist), i) }
 //
 //@ func (q *Queue[T]) Dequeue() (res T)
